@@ -443,7 +443,8 @@ CHARISH = ("char", "core::option::Option<char>", "&char", "&core::option::Option
 CHAR_SINKS = ("alloc::string::String::push", "core::char::methods::<impl char>::len_utf8", "texlang::token::lexer::Config::cat_code",
               "texlang::token::lexer::RawLexer::maybe_apply_caret_notation",
               # presence-preserving adaptors; the closure they run is analysed as part of the scanner
-              "core::option::Option::map", "core::option::Option::and_then", "core::option::Option::is_some", "core::option::Option::is_none") + tuple("texlang::token::" + c for c in TOKEN_CTORS)
+              "core::option::Option::map", "core::option::Option::and_then", "core::option::Option::is_some", "core::option::Option::is_none",
+              "<core::option::Option as core::ops::try_trait::Try>::branch") + tuple("texlang::token::" + c for c in TOKEN_CTORS)
 
 
 def _scanner_fns(F):
@@ -547,6 +548,11 @@ def r3_9(F, R):
                         for v, tb in t["ts"]:
                             if v == 1:
                                 witness.add(tb)
+                    # `let c = self.next_char()?;` — the Continue arm of Option<char>'s Try::branch
+                    if ty.startswith("core::ops::control_flow::ControlFlow<") and ty.endswith(", char>"):
+                        for v, tb in t["ts"]:
+                            if v == 0:
+                                witness.add(tb)
             if t["k"] == "call" and strip_generics(callee_name(t) or "").endswith("Option::unwrap") and t["args"]:
                 p = op_place(t["args"][0])
                 if p is not None and not p["p"] and fn.local_ty(p["l"]) == "core::option::Option<char>" and t.get("t") is not None:
@@ -561,6 +567,68 @@ def r3_9(F, R):
                 R.violation("R3.9", inst, "%s takes a trace key on a path where no character is known to remain: at the end of the last line the range is "
                             "exhausted and KeyRange panics (`requested more trace keys than are in the range`)" % fn.name, fn.loc(t))
     R.floor("R3.9", "trace key demands", n, 3)
+
+
+def r3_10(F, R):
+    R.rule("R3.10", "a line is what the lexer says it is: only '\\n' ends a line and '\\r' is an ordinary character. The tracer and the lexer "
+                    "(texlang::token::trace / lexer) never split the source with std's line iterators (`str::lines`, `split_terminator`, "
+                    "`BufRead::lines`), which also strip a '\\r' before '\\n' and so shift every later column of a CR LF file")
+    BANNED = ("lines", "split_terminator", "split_inclusive")
+    n = 0
+    canary = 0
+    for fn in sorted(F.fns.values(), key=lambda f: f.name):
+        if "::tests::" in fn.name:
+            continue
+        in_scope = fn.name.startswith("texlang::token::trace::") or fn.name.startswith("texlang::token::lexer::") or fn.name.startswith("<texlang::token::trace::")
+        is_canary = fn.name.startswith("texlang::error::display::") or fn.name.startswith("<texlang::error::display::")
+        if not (in_scope or is_canary):
+            continue
+        k = 0
+        for bi, t in fn.calls():
+            n += 1
+            cn = strip_generics(callee_name(t) or "")
+            if cn.split("::")[-1] in BANNED and ("core::str::" in cn or "BufRead" in cn):
+                if in_scope:
+                    R.violation("R3.10", "%s/%s#%d" % (strip_generics(fn.name), cn.split("::")[-1], k), "%s splits the source with std's `%s`, which treats CR LF as one "
+                                "line ending: the column, line number and line text reported for tokens after a CR LF line are wrong" % (fn.name, cn.split("::")[-1]), fn.loc(t))
+                    k += 1
+                else:
+                    canary += 1
+    R.floor("R3.10", "calls examined", n, 50)
+    R.floor("R3.10", "std line iterators recognised in the canary module (error::display)", canary, 1)
+    R.ok("R3.10", "token::trace + token::lexer", "no std line iterator (canary recognised: %d)" % canary, None, how="layering")
+
+
+def r3_11(F, R):
+    R.rule("R3.11", "`^^` reduction is all or nothing: RawLexer::maybe_apply_caret_notation returns false only on paths that have consumed nothing "
+                    "(no call to advance and no store to the cursor before a `false` result) — its callers treat false as 'the superscript character "
+                    "is still there'; at the end of a line TeX leaves `^^` alone (§355)")
+    fn = _one(F, "texlang::token::lexer::RawLexer::maybe_apply_caret_notation")
+    consume = set()
+    for bi, t in fn.calls():
+        if strip_generics(callee_name(t) or "").endswith("RawLexer::advance"):
+            consume.add(bi)
+    for bi, b in enumerate(fn.blocks):
+        for st in b["s"]:
+            if st["k"] == "=" and (field_path(st["lhs"]) or [None])[-1] == "pos":
+                consume.add(bi)
+    false_blocks = {bi for bi, b in enumerate(fn.blocks) for st in b["s"]
+                    if st["k"] == "=" and st["lhs"]["l"] == 0 and not st["lhs"]["p"] and st["rv"]["k"] == "use" and st["rv"]["op"].get("c", {}).get("int") == 0}
+    loc = "%s:%d" % (fn.file, fn.line)
+    if not consume or not false_blocks:
+        raise AnchorError("R3.11: maybe_apply_caret_notation: %d consuming blocks, %d `false` results" % (len(consume), len(false_blocks)))
+    succ = fn.succ()
+    bad = None
+    for c in consume:
+        path = find_path(fn, list(succ[c]), lambda b: b in false_blocks)
+        if path:
+            bad = (c, path)
+            break
+    if bad:
+        R.violation("R3.11", "maybe_apply_caret_notation/consumed-then-false", "maybe_apply_caret_notation can return false after it has consumed characters (%s -> %s): "
+                    "the callers then drop those characters" % (fn.loc(fn.blocks[bad[0]]["t"]), fn.loc(fn.blocks[bad[1][-1]]["t"])), fn.loc(fn.blocks[bad[0]]["t"]))
+    else:
+        R.ok("R3.11", "maybe_apply_caret_notation", "%d consuming blocks, none reaches a `false` result" % len(consume), loc, how="path")
 
 
 def _one(F, name, exact=True):
@@ -580,6 +648,8 @@ def run(F, R, tier):
     r3_7(F, R)
     r3_8(F, R)
     r3_9(F, R)
+    r3_10(F, R)
+    r3_11(F, R)
     R.extra["exhaustive"] = True
     return ("Static analysis: finite-domain specialisation of Lexer::next over all 16x3 (category, state) cells, of read_control_sequence over "
             "16 categories and of CatCode::try_from over 256 bytes, compared with tables transcribed from TeX: The Program §§207,343-355; "
